@@ -132,7 +132,7 @@ def configs(ctx: Ctx):
         return [(k, n, t) for k in KEY_SIZES for n in NONCE_LENS for t in TAG_LENS]
     cs = [(k, n, t) for k in KEY_SIZES for n in (8, 16, 32) for t in (4, 12, 16)]
     seen = set(cs)
-    while len(cs) < 27 + 27:
+    while len(cs) < 27 + 73:
         c = (ctx.rng.choice(KEY_SIZES), ctx.rng.choice(NONCE_LENS), ctx.rng.choice(TAG_LENS))
         if c not in seen:
             seen.add(c)
@@ -415,8 +415,9 @@ def run(ctx: Ctx) -> Result:
             res.count('corpus')
             sess.run_case(case, tamper='some')
             n += 1
-        full_tamper_left = 12 if ctx.thorough else 6
-        for idx, (ks, nl, ml) in enumerate(configs(ctx)):
+        cfgs = configs(ctx)
+        full_idx = set(range(0, len(cfgs), max(1, len(cfgs) // (12 if ctx.thorough else 6))))
+        for idx, (ks, nl, ml) in enumerate(cfgs):
             key = gen_key(rng, ks)
             res.count(f'key_{ks}')
             res.count(f'nonce_len_{nl}')
@@ -426,9 +427,8 @@ def run(ctx: Ctx) -> Result:
                 res.add_case(case, nontrivial=text != '')
                 res.count('text_' + kind)
                 tamper = 'none'
-                if full_tamper_left and j in (1, 17, 33) and idx % 9 == j % 9 % 3:
+                if idx in full_idx and j == 17:
                     tamper = 'all'
-                    full_tamper_left -= 1
                 elif j % 10 == 3:
                     tamper = 'some'
                 sess.run_case(case, tamper=tamper)
@@ -471,7 +471,7 @@ SPEC = PropSpec(
     translators=['crypto'],
     run=run,
     search=search,
-    rule='corpus, then per configuration (quick: 27 corner + 27 sampled of the 3x25x13 key-size x nonce-length x tag-length '
+    rule='corpus, then per configuration (quick: 27 corner + 73 sampled of the 3x25x13 key-size x nonce-length x tag-length '
          'grid; thorough: all 975): every text length 0..64 of one text class (ASCII / 2- / 3- / 4-byte UTF-8 / mixed, '
          'rotating), sampled longer texts up to 3000 characters, embedded / leading / trailing / only NUL; each text is '
          'encrypted twice and decrypted; 8 pseudo-random single-bit flips on every 10th case and every bit of the '
